@@ -771,7 +771,7 @@ class List(list, base.Symbolic, pg_typing.CustomTyping):
   def remove(self, value: Any) -> None:
     """Removes the first occurrence of the value."""
     for i, item in self.sym_items():
-      if item == value:
+      if item is value or item == value:
         if (self._value_spec and self._value_spec.min_size == len(self)):
           raise ValueError(
               f'Cannot remove item: min size ({self._value_spec.min_size}) '
